@@ -10,6 +10,8 @@ ASSUMPTIONS = [
 
 def run(ctx):
     ops_dtype.run_all(ctx)
+    for _ in range(ctx.budget(3, 12)):
+        ops_dtype.case_pickle_other_process(ctx)
     for i in range(ctx.budget(120, 1500)):
         ops_dtype.case_declared_dtype(ctx, Subject(ctx, allow_hidden=False))
         if i % 3 == 0:
